@@ -6,6 +6,7 @@ import (
 	"fmt"
 	"go/token"
 	"go/types"
+	"sort"
 
 	"golang.org/x/tools/go/ssa"
 )
@@ -32,6 +33,8 @@ func checkC05(c *Ctx) {
 		succ := 0
 		allowedID := hopID("core", "AuthorizedKeys", "Allowed")
 		parseID, parseFileID := hopID("core", "", "ParseAuthorizedKeys"), hopID("core", "", "ParseAuthorizedKeysFile")
+		chainChecked := map[*ssa.Function]bool{}
+		chainFails := newFailSet()
 		ok := walkAll(c, "C05.R1", fn, func(p *Path) {
 			if !isSuccess(p) {
 				return
@@ -101,6 +104,54 @@ func checkC05(c *Ctx) {
 					forUser = true
 				}
 			}
+			// the module functions on the chain that turn the user into a location must themselves answer for
+			// that user: on every success path their result derives from the parameter that received it
+			for _, call := range calls {
+				g := staticCallee(&call.Call)
+				if g == nil || !InModule(g) || len(g.Blocks) == 0 || calleeID(call) == parseID || calleeID(call) == parseFileID || chainChecked[g] {
+					continue
+				}
+				chainChecked[g] = true
+				for k, a := range call.Call.Args {
+					if k >= len(g.Params) {
+						continue
+					}
+					_, ls := provenance(p, a, len(p.Blocks)-1)
+					fromUser := false
+					for _, l := range ls {
+						if paramIndex(fn, l) == 1 {
+							fromUser = true
+						}
+					}
+					if !fromUser {
+						continue
+					}
+					kk := k
+					gname := FuncName(g)
+					c.Analysed(gname)
+					walkAll(c, "C05.R1", g, func(q *Path) {
+						if !isSuccess(q) {
+							return
+						}
+						r := q.Returns()
+						if r == nil || len(r.Results) == 0 {
+							return
+						}
+						q.throughCalls = true
+						_, rl := provenance(q, resolveSpill(q, r.Results[0]), len(q.Blocks)-1)
+						q.throughCalls = false
+						dep := false
+						for _, l := range rl {
+							if paramIndex(g, l) == kk {
+								dep = true
+							}
+						}
+						if !dep {
+							chainFails.add("for-this-user:"+gname, gname+" succeeds on a path where what it returns does not depend on the user it was asked about: a login under that name is checked against somebody else's authorized_keys file", q.Exit(), q)
+						}
+					})
+				}
+			}
 			if !parsed {
 				fs.add("provenance", "AuthorizeKey returns success on a path where the key list given to Allowed was not parsed from the authorized_keys file during this call ("+describeLeaves(P, leaves)+"): a key removed from the file can still be admitted", listSite, p)
 			} else if !forUser {
@@ -108,6 +159,14 @@ func checkC05(c *Ctx) {
 			}
 		})
 		if ok {
+			var chainKeys []string
+			for g := range chainChecked {
+				chainKeys = append(chainKeys, "for-this-user:"+FuncName(g))
+			}
+			sort.Strings(chainKeys)
+			if len(chainKeys) > 0 {
+				chainFails.report(c, "C05.R1", name, chainKeys, P.Pos(fn.Pos()), "the location functions on the chain answer for the user they are asked about")
+			}
 			fs.report(c, "C05.R1", name, []string{"fail-closed", "membership", "provenance"}, P.Pos(fn.Pos()), fmt.Sprintf("holds on all %d success paths", succ))
 			c.Floor("C05.R1", "success paths of AuthorizeKey", succ, 1)
 		}
